@@ -22,7 +22,7 @@ def dispatch (prop : String) (ins outs : List String) : Verdict :=
   | "C17" => C17.run ins outs
   | "C16" => C16.run ins outs
   | "C11" => C11.run ins outs
-  | "C03" => C03.run ins outs
+  | "C03" => C03.runX ins outs
   | "C09" => C09.run ins outs
   | "C15" => C15.run ins outs
   | "C04" => C04.run ins outs
